@@ -19,6 +19,9 @@ ALL functions of the anchored modules of the property, not only over the functio
     stale system        a builder created from the ODE system read before the model was re-bound
     lost update         statements = statements.reassign(..) / model = model.replace(..) never read on some path to a return
     loop-carried flag   (advisory) a flag tested and cleared in an inner loop but initialised outside the outer one
+    iterators compared  `c.append(product(..))` ... `x in c`: a collection of iterator objects is searched by identity
+    unknown attribute   `self.x` read in a method although no class of the hierarchy (bases and subclasses, all inside the
+                        package, no __getattr__ / setattr / __dict__ tricks) defines or assigns `x`
 """
 from __future__ import annotations
 
@@ -77,11 +80,40 @@ def run(chk, repo, pid):
                         'mismatch, accumulator read, sequential substitution, discarded result) in all functions of the '
                         'anchored modules', floor=10)
     nfun = 0
+    SAFE_EXT = {'object', 'ABC', 'Generic', 'Protocol', 'abc.ABC', 'typing.Generic', 'typing.Protocol'}
+    subs, cn_cache = {}, {}
+    for c_ in repo.all_classes():
+        for k_ in repo.mro(c_)[1:]:
+            subs.setdefault(k_.fq, []).append(c_)
+
+    def family_names(c_):
+        # names defined anywhere in the hierarchy of c_ (its bases, its subclasses and their bases); None = cannot be known
+        if c_.fq in cn_cache:
+            return cn_cache[c_.fq]
+        fam = list(repo.mro(c_))
+        for s_ in subs.get(c_.fq, []):
+            fam += repo.mro(s_)
+        known, ok_ = set(), True
+        for k_ in fam:
+            if set(repo.ext_bases(k_)) - SAFE_EXT:
+                ok_ = False
+                break
+            a_, dyn_ = lints.class_names(k_.node)
+            known |= a_
+            ok_ = ok_ and not dyn_
+        cn_cache[c_.fq] = known if ok_ else None
+        return cn_cache[c_.fq]
+
     for f in repo.all_funcs():
         if f.module.name not in mods:
             continue
         nfun += 1
         found = []
+        if f.cls is not None and f.parent is None and (kn_ := family_names(f.cls)) is not None:
+            for x_ in lints.unknown_self_reads(f.node, kn_):
+                found.append(('unknown attribute', x_.lineno, unparse(x_),
+                              f'nothing in the hierarchy of {f.cls.name} defines `{x_.attr}`: reaching this line raises '
+                              f'AttributeError'))
         for node, L, cap, how in lints.late_binding(f.node):
             found.append(('late binding', node.lineno, f'{getattr(node, "name", "lambda")} reads {", ".join(cap)} ({how})',
                           'all functions collected from the loop use the values of the last iteration'))
@@ -126,6 +158,10 @@ def run(chk, repo, pid):
         for dname, a in lints.defaultdict_overwrites(f.node)[0]:
             found.append(('collector overwritten', a.lineno, unparse(a)[:80],
                           f'`{dname}` collects values per key; the assignment replaces what earlier iterations collected'))
+        for ap_, cmp_ in lints.membership_among_iterators(f.node):
+            found.append(('iterators compared', cmp_.lineno, f'{unparse(ap_)[:60]} ... {unparse(cmp_)[:40]}',
+                          'the collection holds iterator objects (compared by identity): the membership test is False for '
+                          'every value; extend()/update() with the items was meant'))
         for d_, v_, how_ in lints.dead_pure_updates(f.node):
             found.append(('lost update', d_.line, f'{d_.text()[:60]} ... {how_}',
                           f'the new value of `{v_}` is never read on that path: the change it carries is dropped'))
@@ -250,4 +286,4 @@ def run(chk, repo, pid):
                 chk.violation(Y0, f.module.rel, f.qualname, f'loop-carried flag `{v}`',
                               'tested and cleared in an inner loop, initialised outside the outer loop', line=M.lineno,
                               advisory=True)
-    chk.instance(Y0, f'{nfun} functions of {len(mods)} anchored modules scanned for 19 defect shapes', n=nfun)
+    chk.instance(Y0, f'{nfun} functions of {len(mods)} anchored modules scanned for 21 defect shapes', n=nfun)
